@@ -305,4 +305,18 @@ def c17(run, ck):
                 assumptions=["built-in type names are never variables and need not be reported"])
 
 
-PIPELINES = {"C17": c17, "C19": c19, "C11": c11, "C01": c01, "C13": c13, "C02": c02, "C18": c18, "C12": c12, "C10": c10, "C09": c09, "C03": c03, "C04": c04, "C05": c05, "C06": c06, "C07": c07, "C08": c08}
+def c14(run, ck):
+    eval_stage(run, ck, "conv", 300, 8000)
+    return dict(rule="every conversion function x the numeric grid, the non-numeric pool, 60 numeric / boolean / garbage spellings and valid / invalid UTF-8 byte strings (bound and literal); type(T(x)) == T; round-trip laws on random values "
+                     "(the observed string(d) is re-read by the specification's decimal parser and must denote d exactly); f-strings against the concatenation of their literal parts and string(e), both by the specification and as an equation evaluated by the implementation",
+                assumptions=["string(double) is checked by the law double(string(d)) == d and by re-parsing, not by a unique expected spelling"])
+
+
+def c15(run, ck):
+    eval_stage(run, ck, "strings", 300, 6000)
+    return dict(rule="all strings of length <= 2 over a mixed ASCII / multi-byte / case-folding alphabet plus sampled longer ones x needles (empty, overlapping, absent, multi-byte) x every string function; defining equations evaluated on random strings up to 40 characters; "
+                     "regex patterns from a subset grammar (decided by the specification's matcher) and invalid patterns; math functions on the boundary grid (integer forms exact, sqrt correctly rounded); the signature table (receiver type x arity 0..3 x argument types)",
+                assumptions=["regex syntax outside the subset and transcendental double results (pow/log of doubles) are not decided", "case mapping only on the listed alphabet"])
+
+
+PIPELINES = {"C15": c15, "C14": c14, "C17": c17, "C19": c19, "C11": c11, "C01": c01, "C13": c13, "C02": c02, "C18": c18, "C12": c12, "C10": c10, "C09": c09, "C03": c03, "C04": c04, "C05": c05, "C06": c06, "C07": c07, "C08": c08}
